@@ -1,7 +1,16 @@
 #!/usr/bin/env python3
 # Generates /verif/MANIFEST.json from the table below (kept in one place so that it stays valid).
 import json, sys
+REFNOTE = "Trusted base: libcrypto single-block AES/DES/SM4 and plain MD5/SHA/SM3 (an independent implementation); every mode, MAC, AEAD composition and CRC is written in /verif/ref from the specifications. Algorithms without an admitted reference (listed in the evidence counter 'reference_not_admitted': ZUC, SNOW3G, KASUMI, SNOW-V, PON until their hand-written references are admitted) are covered by the differential oracles of C04/C08 only. This is seeded input sampling with an independent oracle; the schedule adds lane co-occupancy."
 claimed = {
+ "C01": ("exploration", "reference-model refinement of every completed cipher job under seeded schedules",
+   "Cipher-only jobs of every mode x key size x direction are generated with boundary-biased lengths (block/SIMD-width edges, >4 KiB, near 65534), offsets, alignments, in-place/out-of-place and IV classes (random, low byte FF, low 32 bits about to wrap, low 64 bits all ones, all ones), co-scheduled on all 12 init configurations; every handed-back job's destination bytes (exact bits for bit-length modes), source afterwards and CBCS next-IV are compared with a textbook reference applied to a shadow copy of the caller's memory.", REFNOTE),
+ "C02": ("exploration", "reference-model refinement of every completed hash/MAC job under seeded schedules",
+   "Hash-only jobs of every algorithm with every permitted tag length, lengths biased to 0/1, block and padding thresholds (55/56/64, 111/112/128, 119/120), bit lengths for the 3GPP MACs, up to 65534 bytes, mixed so that multi-buffer lanes hold different lengths and flushes complete partially filled lanes; the tag bytes are compared with the leading bytes of the reference value.", REFNOTE),
+ "C03": ("exploration", "reference-model refinement of AEAD/combined jobs in both directions under seeded schedules",
+   "GCM (3 key sizes, IV lengths 1..64, AAD 0..1100, tags 1..16), CCM (nonce 7..13, AAD 0..46, even tags), ChaCha20-Poly1305, SM4-GCM and DOCSIS-BPI+CRC32 (frame geometry as documented) in both directions: ciphertext/plaintext, tag and the CRC written into the frame are compared with references written from SP 800-38D, RFC 3610, RFC 8439 and the DOCSIS BPI rules; decrypt jobs are checked the same way (so encrypt-then-decrypt consistency follows from both equalling the reference).", REFNOTE + " PON and SNOW-V-AEAD have no admitted reference yet (differential only)."),
+ "C06": ("exploration", "reference composition cipher_ref o hash_ref in the requested chain order on shadow memory",
+   "Chained jobs pairing any generic cipher with any generic hash, both chain orders, both directions, in-place and out-of-place, independent cipher/hash ranges: the reference applies the two textbook stages in the requested order to a shadow copy of the caller's memory (so a stage run twice, skipped, with the wrong key size or seeing the wrong bytes changes the result); the dedicated AEAD pairings are submitted with foreign partners as invalid jobs and must be rejected (also C12). Burst API jobs carry suite ids from imb_set_session() and are checked identically.", REFNOTE + " The product of suites is sampled (seeded), not yet enumerated cell by cell."),
  "C04": ("exploration", "solo-run differential under seeded schedules",
    "Seeded simulation of API-call schedules (job and burst API, flush/get-completed at arbitrary points, ring wrap, queue-full pressure, 1-6 suites mixed so that lanes hold different lengths) on all 12 init configurations (7 variants); every job handed back is compared byte-for-byte (dst, tag, source after, next-IV, status) with the same job run alone on a fresh manager of the same variant. Sampled, not exhaustive; a clean batch is evidence.",
    "Trusts that the library's solo run is a fair 'alone' baseline (a defect that is identical alone and co-scheduled is C01-C03's business). SGL streams are excluded here (C10). Documented don't-care bytes are masked: PON CRC word for PLI<=4, DOCSIS CRC for frames shorter than the minimum Ethernet PDU."),
@@ -37,10 +46,6 @@ claimed = {
    "The documented algorithm list is matched by substring on the description strings."),
 }
 na = {
- "C01": "not built yet in this revision: needs the textbook reference implementations (ref/), planned next",
- "C02": "not built yet in this revision: needs the textbook reference implementations (ref/), planned next",
- "C03": "not built yet in this revision: needs the textbook reference implementations (ref/), planned next",
- "C06": "not built yet in this revision: needs the textbook reference implementations (ref/), planned next",
  "C09": "not built yet in this revision: entry-point differential (sync bursts, direct API) planned",
  "C10": "not built yet in this revision: SGL segmentation profile planned",
  "C11": "not built yet in this revision: needs reference key schedules",
